@@ -276,7 +276,8 @@ func c31LazyFills(r *core.Run) {
 			var isFill func(in ssa.Instruction) bool
 			switch x := cond.(type) {
 			case *ssa.BinOp:
-				if x.Op != token.EQL && x.Op != token.NEQ {
+				// `f == nil`, `f == 0`, or the sentinel form `f < 0`
+				if x.Op != token.EQL && x.Op != token.NEQ && x.Op != token.LSS && x.Op != token.GEQ {
 					continue
 				}
 				var loaded ssa.Value
@@ -301,7 +302,7 @@ func c31LazyFills(r *core.Run) {
 					continue
 				}
 				cache = tn + "." + f
-				isNilSide := (x.Op == token.EQL) != neg
+				isNilSide := (x.Op == token.EQL || x.Op == token.LSS) != neg
 				if isNilSide {
 					miss = b.Succs[0]
 				} else {
